@@ -30,9 +30,12 @@ func (s StandIn) SafeFormat(p redact.SafePrinter, verb rune) {
 var standinLog []hookCall
 var currentHook []*compiled
 
+// nCauseOps: how many times the installed hook script prints the cause
+var nCauseOps int
+
 // hooked error kinds: errors that are neither SafeFormatter nor SafeMessager
 var hookedKinds = map[string]bool{"err": true, "perr": true, "stderr": true, "serr": true, "ierr": true, "errwrap": true, "nilerr": true,
-	"errstringer": true, "errfmter": true, "err!": true, "perr!": true}
+	"errstringer": true, "errfmter": true, "err!": true, "perr!": true, "errwrapv": true}
 
 type expectedCall struct {
 	kind string
@@ -48,7 +51,19 @@ func standInShape(v *Val, verb rune, dispatched bool, depth int, exp *[]expected
 	if hookedKinds[v.K] {
 		if dispatched {
 			*exp = append(*exp, expectedCall{kind: v.K, verb: verb})
-			return &Val{K: "standin", Sub: []*Val{v}}
+			inner := v
+			if (v.K == "errwrap" || v.K == "errwrapv") && len(v.Sub) == 1 && nCauseOps > 0 {
+				// the hook prints the cause through the printer (verb v): it is
+				// dispatched too, once per "Cause" op of the script
+				c := *v
+				var sub []expectedCall
+				c.Sub = []*Val{standInShape(v.Sub[0], 'v', true, 0, &sub)}
+				for i := 0; i < nCauseOps; i++ {
+					*exp = append(*exp, sub...)
+				}
+				inner = &c
+			}
+			return &Val{K: "standin", Sub: []*Val{inner}}
 		}
 		return v
 	}
@@ -112,6 +127,12 @@ func checkC17(c *FmtCase) Result {
 			ai++
 		}
 	}
+	nCauseOps = 0
+	for _, op := range c.Hook {
+		if op.K == "Cause" && c.HasHook {
+			nCauseOps++
+		}
+	}
 	var exp []expectedCall
 	shape := *c
 	shape.Args = nil
@@ -142,7 +163,6 @@ func checkC17(c *FmtCase) Result {
 	// run 1: the real errors with the hook installed
 	applyConfig(c.Reg, c.HasHook, c.Hook)
 	defer resetConfig()
-	currentHook = compileOps(c.Hook, 0)
 	var args []interface{}
 	bld := &builder{cache: map[*Val]interface{}{}}
 	if p, _ := guard(func() { args = buildAllWith(bld, c.Args) }); p {
@@ -191,8 +211,12 @@ func checkC17(c *FmtCase) Result {
 	}
 	// a panic in the hook is reported under the name "SafeFormatter", one in
 	// the stand-in's SafeFormat method under "SafeFormat"
-	want.out = bytes.ReplaceAll(want.out, []byte("(PANIC=SafeFormat method: "), []byte("(PANIC=SafeFormatter method: "))
-	if !bytes.Equal(got.out, want.out) {
+	// (a SafeFormat method called from the hook's own operands can panic as
+	// well, in both runs: compare with the two names identified)
+	unify := func(b []byte) []byte {
+		return bytes.ReplaceAll(b, []byte("(PANIC=SafeFormatter method: "), []byte("(PANIC=SafeFormat method: "))
+	}
+	if !bytes.Equal(unify(got.out), unify(want.out)) {
 		return fail("with the hook: %s; with every dispatched error replaced by a SafeFormatter running the hook's script: %s", q(got.out), q(want.out))
 	}
 	// the hook was called exactly once per dispatched error, with the right verb
